@@ -14,6 +14,7 @@ import SkNet.Lemmas.ClusteringLeiden
 import SkNet.Lemmas.ClusteringSecondary
 import SkNet.Lemmas.ClusteringKCenters
 import SkNet.Lemmas.ClusteringAggregate
+import SkNet.Lemmas.ClusteringCanon
 
 namespace SkNet.C05
 open SkNet SkNet.Clustering
@@ -54,6 +55,29 @@ theorem reindex_stable_valid (labels : List Int) :
     ValidClustering labels.length (reindexLabels argsortStable labels) true ∧
     SamePartition labels (reindexLabels argsortStable labels) :=
   ⟨reindex_valid _ _ (argsortStable_isArgsort _), reindex_same_partition _ _ (argsortStable_isArgsort _)⟩
+
+/-- ★ what `argsort` does on ties cannot matter beyond a permutation of labels among clusters of equal size:
+    two valid clusterings sorted by size with the same partition have the same number of labels and the same size
+    for every label.  (This is the canonical form in which the harness compares label vectors: partition + sizes.) -/
+theorem sorted_clusterings_same_profile {a b : List Nat} {k k' : Nat} (h : SamePartition a b)
+    (ha : ValidK a k true) (hb : ValidK b k' true) : k = k' ∧ ∀ c, a.count c = b.count c :=
+  sorted_profile_unique h ha hb
+
+/-- in particular the outputs of `reindex_labels` under two different admissible `argsort`s (say numpy's
+    introsort and the stable sort of the model) have the same partition and the same size for every label -/
+theorem reindex_independent_of_argsort (argsort₁ argsort₂ : List Int → List Nat) (labels : List Int)
+    (h₁ : IsArgsort (sizeKey labels) (argsort₁ (sizeKey labels)))
+    (h₂ : IsArgsort (sizeKey labels) (argsort₂ (sizeKey labels))) :
+    SamePartition (reindexLabels argsort₁ labels) (reindexLabels argsort₂ labels) ∧
+    ∀ c, (reindexLabels argsort₁ labels).count c = (reindexLabels argsort₂ labels).count c := by
+  have hp : SamePartition (reindexLabels argsort₁ labels) (reindexLabels argsort₂ labels) := by
+    have s1 := reindex_samePartition h₁
+    have s2 := reindex_samePartition h₂
+    refine ⟨s1.1.symm.trans s2.1, fun i hi j hj => ?_⟩
+    have hi' : i < labels.length := s1.1 ▸ hi
+    have hj' : j < labels.length := s1.1 ▸ hj
+    exact (s1.2 i hi' j hj').symm.trans (s2.2 i hi' j hj')
+  exact ⟨hp, (sorted_profile_unique hp (reindex_validK h₁) (reindex_validK h₂)).2⟩
 
 -- non-vacuity: a label vector with gaps, a negative label and a tie between sizes
 example : reindexLabels argsortStable [7, -2, 7, 3, 3, 7, 9] = [0, 2, 0, 1, 1, 0, 3] := by decide
